@@ -58,6 +58,9 @@ def plan(seed, subbatch):
         faults = {"drop": {"p": 0.0005, "max": 4}}
         burst, p_empty, recoll, mega = None, 0.0, 0, True
     start = world.pick_start(cfg, base_s, tf_s)
+    env = planlib.dst_env(sub_rng(seed, "env"), n, base_s)
+    if env:
+        start = env[1]     # the stream straddles an offset change of the zone the process runs in
     op_rng = sub_rng(seed, "operator")
     extras = [(op_rng.random(), {"op": "recollapse", "times": op_rng.randint(1, 2)}) for _ in range(recoll)]
     regimes = None
@@ -83,7 +86,7 @@ def plan(seed, subbatch):
         ctype = "HA"
         fired["heikin_ashi_configured"] += 1
     return {"format": 1, "property": ID, "seed": seed, "subbatch": subbatch,
-            "config": {"route": route, "tf": tf, "base_s": base_s, "lifespan_s": lifespan, "ctype": ctype,
+            "config": {"process_tz": env[0] if env else None, "route": route, "tf": tf, "base_s": base_s, "lifespan_s": lifespan, "ctype": ctype,
                        "utc_offset_min": cfg.choice((None, None, None, None, 0, 60, 345))},
             "ops": [{"op": "new", "preload": pre}] + ops, "fired": dict(fired)}
 
